@@ -71,7 +71,7 @@ def run(ctx):
     for bi in nones:
         fa = [atom_norm(a, g) for a in dt.facts_at(bi)]
         for s in sbw:
-            if ("rel", "Eq", fld(s, 2), ("int", 0)) in fa and (("rel", "Ne", fld(s, 0), fld(s, 1)) in fa or ("rel", "Ne", fld(s, 1), fld(s, 0)) in fa):
+            if any(implies(h, ("rel", "Eq", fld(s, 2), ("int", 0))) for h in fa) and any(implies(h, ("rel", "Ne", fld(s, 0), fld(s, 1))) for h in fa):
                 contra.append(bi)
     ctx.require(bool(contra), "T3-contradiction-rejects", dt.name, "gap==0 && head!=tail -> None", "a closed scan with head != tail returns None",
                 "derived_table has no `return None` on the edge gap == 0 && head != tail: inconsistent tables are kept")
@@ -87,7 +87,7 @@ def run(ctx):
         for s in sbw:
             if a[1:] == [fld(s, 0), fld(s, 1), fld(s, 3)]:
                 fa = [atom_norm(x, g) for x in dt.facts_at(bi)]
-                ded.append((bi, ("rel", "Eq", fld(s, 2), ("int", 1)) in fa, s))
+                ded.append((bi, any(implies(h, ("rel", "Eq", fld(s, 2), ("int", 1))) for h in fa), s))
     ctx.require(bool(ded) and all(d[1] for d in ded), "T3-deduction-joined", dt.name, "gap==1 -> join(head, tail, c)", "a scan with exactly one gap joins (head, tail, letter) of that scan",
                 "derived_table does not join (head, tail, c) of the scan under gap == 1")
     pb = [norm(dt.origin(t["args"][1]), g) for bi, t in dt.calls("VecDeque::<T, A>::push_back")]
